@@ -48,6 +48,12 @@ def _out_of_range(v) -> bool:
     return False
 
 
+def _has_nonfinite(v) -> bool:
+    if isinstance(v, (list, tuple)):
+        return any(_has_nonfinite(x) for x in v)
+    return isinstance(v, float) and (v != v or v in (float("inf"), float("-inf")))
+
+
 def rows_equal(exp_rows, obs_rows, tol=0.0) -> bool:
     return veq([list(r) for r in exp_rows], [list(r) for r in obs_rows], tol)
 
@@ -96,6 +102,7 @@ def seq_split_relation(exp_rows, obs_rows) -> bool:
 
 ALT_SEMANTICS = [
     ("minmax-seed0", dict(minmax="seed0")),
+    ("c-int-division", dict(c_int_div=True)),
     ("range-bounds-unset", dict(range_mode="empty")),
     ("minmax-seed0+range-bounds-unset", dict(minmax="seed0", range_mode="empty")),
 ]
@@ -135,6 +142,9 @@ def classify_event(text, ev, er, extra_env=None, tol=0.0):
         if alt[0] == "fault" and er.end in LOUD and exp[0] == "rows":
             explained = name + ":fault"
             break
+        if alt[0] == "unsupported" and "zero division" in str(alt[1]) and er.end == "ok" and _has_nonfinite(obs_rows):
+            explained = name + "+zero-division"
+            break
     if explained is None and exp[0] == "rows" and er.end == "ok" and seq_split_relation(exp[1], obs_rows):
         explained = "seq-column-split"
     return {"symptom": symptom, "expected": exp, "observed_end": er.end, "what": er.what[:120],
@@ -167,7 +177,8 @@ def post(outs, events):
                 nbad += 1
                 continue
             er = j.events[0]
-            r = classify_event(c.text, events[er.event], er)
+            # a quotient of float32 values (tags(), q()) may legitimately be formed in float precision
+            r = classify_event(c.text, events[er.event], er, tol=(4e-7 if "/" in c.text else 0.0))
             stats["executions"] += 1
             if r is None:
                 stats["agree"] += 1
